@@ -78,6 +78,7 @@ type CallSiteAssert struct {
 	Callee string
 	N      int
 	C      *Clause
+	seen   bool
 }
 
 type FnContract struct {
@@ -107,6 +108,8 @@ type FnContract struct {
 	InterruptibleBy string
 	Deltas    []*Clause
 	Dec       *Clause
+	OnAssign  []*CallSiteAssert // Callee = local variable name: asserted right after its first assignment
+	FreshWrites []string // struct types whose fields this function may only write on objects it owns (fresh / mine)
 }
 
 type PredDef struct {
@@ -151,6 +154,7 @@ type SpecDB struct {
 	Lemmas   []*Clause
 	UFs      map[string]*UFDecl
 	Tracked  map[string]bool
+	Callers  []*CallersDecl
 	Conds    map[string]string
 	GlobalInvs map[string][]*Clause
 	AutoTags []AutoTag
@@ -158,6 +162,16 @@ type SpecDB struct {
 	Errors   []string
 	Files    []string
 	AssumeScan []string
+}
+
+type CallersDecl struct {
+	Label   string
+	Tags    []string
+	Fn      string
+	Allowed []string
+	Pkg     string
+	File    string
+	Line    int
 }
 
 type UFDecl struct {
@@ -181,7 +195,7 @@ func newSpecDB() *SpecDB {
 		Imports: map[string]map[string]string{}, Dyn: map[string]*FnContract{}, Mono: map[string][]*Clause{}}
 }
 
-var labelRe = regexp.MustCompile(`^\[([A-Za-z0-9_.,\- ]+)\]\s*`)
+var labelRe = regexp.MustCompile(`^\[([A-Za-z0-9_.,@\- ]+)\]\s*`)
 
 // parseLabel strips a leading [C01.name] or [C01,C04 name] label.
 func parseLabel(s string) (label string, tags []string, rest string) {
@@ -197,11 +211,11 @@ func parseLabel(s string) (label string, tags []string, rest string) {
 	return
 }
 
-var directiveKW = map[string]bool{"globalinv": true, "uf": true, "tracked": true, "cond": true, "autotag": true, "option": true, "import": true, "ghost": true, "pred": true, "inv": true, "lockinv": true, "protect": true,
+var directiveKW = map[string]bool{"globalinv": true, "uf": true, "tracked": true, "cond": true, "callers": true, "autotag": true, "option": true, "import": true, "ghost": true, "pred": true, "inv": true, "lockinv": true, "protect": true,
 	"typeinv": true, "lockorder": true, "guards": true, "func": true, "dyn": true, "lemma": true, "mono": true, "spec": true}
 var clauseKW = map[string]bool{"requires": true, "ensures": true, "loop": true, "locks": true, "modifies": true, "inline": true,
 	"trusted": true, "entry": true, "optional": true, "blocking": true, "pure": true, "callsite": true, "captures": true,
-	"interruptible_by": true, "constructor": true, "delta": true, "decreases": true}
+	"interruptible_by": true, "constructor": true, "delta": true, "decreases": true, "fresh_writes": true, "onassign": true}
 
 // loadSpecFile parses one contract file. goFile: lines are taken from //@ comments.
 func (db *SpecDB) loadSpecFile(path string, pkgPath string, goFile bool) {
@@ -445,6 +459,15 @@ func (db *SpecDB) loadSpecFile(path string, pkgPath string, goFile bool) {
 			if len(f) == 3 && f[1] == "uses" {
 				db.Conds["field:"+pkgPath+"."+f[0]] = pkgPath + "." + f[2]
 			}
+		case "callers":
+			// callers [C03.x] fn: a b c   -- only the listed functions may call fn (call-graph obligation)
+			label, tags, rest := parseLabel(it.text)
+			i := strings.Index(rest, ":")
+			if i < 0 {
+				db.Errors = append(db.Errors, fmt.Sprintf("%s:%d: bad callers directive", path, it.n))
+				continue
+			}
+			db.Callers = append(db.Callers, &CallersDecl{Label: label, Tags: tags, Fn: strings.TrimSpace(rest[:i]), Allowed: strings.Fields(rest[i+1:]), Pkg: pkgPath, File: path, Line: it.n})
 		case "tracked":
 			for _, t := range strings.Fields(it.text) {
 				db.Tracked[pkgPath+"."+t] = true
@@ -488,6 +511,15 @@ func (db *SpecDB) loadSpecFile(path string, pkgPath string, goFile bool) {
 				cur.Captures = append(cur.Captures, mkClause(it.text, it.n))
 			case "decreases":
 				cur.Dec = mkClause(it.text, it.n)
+			case "onassign":
+				f := strings.SplitN(it.text, " ", 3)
+				if len(f) < 3 || f[1] != "asserts" {
+					db.Errors = append(db.Errors, fmt.Sprintf("%s:%d: bad onassign clause", path, it.n))
+					continue
+				}
+				cur.OnAssign = append(cur.OnAssign, &CallSiteAssert{Callee: f[0], N: 1, C: mkClause(f[2], it.n)})
+			case "fresh_writes":
+				cur.FreshWrites = append(cur.FreshWrites, strings.Fields(it.text)...)
 			case "delta":
 				cur.Deltas = append(cur.Deltas, mkClause(it.text, it.n))
 			case "loop":
